@@ -208,6 +208,26 @@ def addConflict : List Link → Bool
   | [] => false
   | l :: ls => ls.any (fun m => m.reference == l.reference) || addConflict ls
 
+/-- `GoLinknameSet` (linkname.go:208-211): the two maps, as association lists in insertion order -/
+structure LinkSet where
+  byImplementation : List Link
+  byReference : List Link
+deriving DecidableEq, Repr
+
+/-- `Add` (linkname.go:214-231): the entries are recorded one by one; a second directive for an already recorded
+    reference stops the call with an error — after the entry was recorded under its implementation, and without
+    looking at the remaining entries. Result: the set and whether an error was returned. -/
+def LinkSet.add (s : LinkSet) : List Link → LinkSet × Bool
+  | [] => (s, false)
+  | e :: es =>
+    let s1 : LinkSet := { s with byImplementation := s.byImplementation ++ [e] }
+    if s.byReference.any (fun l => l.reference == e.reference) then (s1, true)
+    else LinkSet.add { s1 with byReference := s1.byReference ++ [e] } es
+
+/-- compiler.go:135-139: `gls.Add(pkg.GoLinknames)` for every package in link order; the returned error is discarded. -/
+def programLinkSet (pkgs : List (List Link)) : LinkSet :=
+  pkgs.foldl (fun s l => (s.add l).1) ⟨[], []⟩
+
 /-- compiler.go:295-332: the declaration `ref` (a bodyless function of some package) is bound by `$initLinknames`
     to the entry `$linknames[impl.String()]`; the entries are filled in (keyed by `LinkingName.String()`) for the
     declarations whose `LinkingName` (the struct, not its string) is the implementation of some directive. `decls` are the `LinkingName`s of all declarations of the program. -/
